@@ -1123,3 +1123,27 @@ func init() {
 			}
 		}})
 }
+
+func init() {
+	register(&Rule{ID: "C05.R7", Props: []string{"C05"}, Min: 1, Needs: NeedMain,
+		Doc: "the read cursor only moves forward: every (*bytes.Reader).Seek in the decoding packages is relative to the current position with an offset that is provably non-negative at the call (interval analysis over the dominating guards); a negative, input-controlled offset would move the cursor back onto bytes already consumed and the skipping loops would never end",
+		Run: func(r *R) {
+			for _, fn := range r.w.decodeFuncs() {
+				eachInstr(fn, func(in ssa.Instruction) {
+					c, ok := in.(*ssa.Call)
+					if !ok || funcID(calleeObj(&c.Call)) != "bytes.(Reader).Seek" {
+						return
+					}
+					args := c.Call.Args
+					off, whence := args[len(args)-2], args[len(args)-1]
+					if k, isK := constInt(whence); !isK || k != 1 {
+						r.Bad(fname(fn), "Seek is relative and forward", in.Pos(), "Seek with whence %s: the decoders only ever advance relative to the current position", pathOf(whence))
+						return
+					}
+					core := stripWiden(off)
+					cs := setAt(fn, core, in)
+					r.Check(cs.subsetOf(rng(0, posInf)), fname(fn), "Seek is relative and forward", in.Pos(), "offset %s in %s", "the offset %s of this Seek can be negative (values %s): a length taken from the input moves the cursor backwards and a skip loop re-reads the same field for ever", pathOf(core), cs)
+				})
+			}
+		}})
+}
